@@ -154,6 +154,19 @@ CLAIMED = {
    note="Partial: scenario level is fault enumeration (single faults, exhaustive in k), not proof; faults are injected by -Wl,--wrap in the "
         "harness and by an LD_PRELOAD shim for the tools; errno-specific behaviour beyond EINTR is not distinguished.",
    technique="Lean 4 proof (case analysis over fault outcomes, write-append lemma, induction over the read loop) + exhaustive single-fault injection as search and correspondence"),
+ 'C19': dict(
+   text="PARTIAL proof (Lean 4): (1) footprint_clean, on the list of process-wide writable objects REGENERATED on every run from the library "
+        "objects of the working tree (objdump -t, OpenSSL and bundled hash back ends): each is logging configuration (log_level, log_fd, "
+        "callback — fixed before thread start by the premise) or is never written outside its initialiser; (2) interleaving_eq_serial: for "
+        "operations that read but do not write shared storage, EVERY interleaving of any number of threads' operation sequences gives each "
+        "thread exactly the state and outputs of running its own sequence alone. Tied to the code by THREADS runs of the real library under "
+        "ThreadSanitizer and in a plain build (2..16 threads, seeded workloads over write/read/validate/chunk access/copy/ranges/error and "
+        "name strings, three logging modes), whose concurrent per-operation results must equal the serial ones.",
+   design_ref="DESIGN.md section 7 C19",
+   note="Partial: that library operations touch only their own contexts' heap objects and the footprint above is established by the "
+        "generated footprint (statics) and searched by ThreadSanitizer (heap), not proved from the C semantics; libc/OpenSSL/zstd internals "
+        "are trusted to be thread-safe as documented.",
+   technique="Lean 4 proof (decide over the generated storage footprint; induction over the interleaving) + ThreadSanitizer runs as search and correspondence"),
 }
 
 NOT_YET = "machinery for this property is not built yet in this snapshot (work in progress; see DESIGN.md section 11 build order)"
